@@ -107,7 +107,14 @@ class LockState:
 def lock_state(M, lock):
     if len(lock.fields) < 2: lock.fields.append(LockState())
     if not isinstance(lock.fields[1], LockState): lock.fields[1] = LockState()
+    ls = M.env.setdefault('lock_states', [])
+    if not any(x is lock.fields[1] for x in ls): ls.append(lock.fields[1])
     return lock.fields[1]
+
+def release_all_locks(M):
+    """a task that panicked unwinds: every guard it held is dropped (single-task harnesses only)"""
+    for st in M.env.get('lock_states', []):
+        st.readers, st.writer = 0, False
 
 class LockFuture(ModelFuture):
     def __init__(self, lockref, write): self.lockref, self.write = lockref, write
@@ -171,6 +178,7 @@ def sender_send(M, ctx, r, msg):
     if not ch.rx_alive:
         return err(Adt('SendError', 0, [msg]))
     ch.q.append(msg); ch.log.append(msg)
+    M.env['activity'] = M.env.get('activity', 0) + 1
     return ok(Tup())
 
 @model('tokio::sync::mpsc::UnboundedSender::is_closed')
@@ -251,6 +259,7 @@ def oneshot_send(M, ctx, s, v):
     if not st.rx_alive:
         return err(v)
     st.value = v; st.sent = True
+    M.env['activity'] = M.env.get('activity', 0) + 1
     return ok(Tup())
 
 @model('tokio::sync::oneshot::Sender::is_closed')
@@ -261,6 +270,7 @@ def _oneshot_sender_drop(M, s):
     st = s.fields[0]
     if isinstance(st, OneShot) and not st.sent:
         st.tx_dropped = True
+        M.env['activity'] = M.env.get('activity', 0) + 1
 DROP_HOOKS['OneshotSender'] = _oneshot_sender_drop
 
 @model('tokio::sync::oneshot::Receiver::close')
@@ -479,6 +489,15 @@ class LineSource:
         it = self.items[0]
         if it[0] == 'pending':
             self.items.pop(0); return pending()
+        if it[0] == 'at':
+            # an input line that arrives at a virtual time
+            c = clock(M)
+            if M.branch(M.binop_t('Le', it[1], c.now, 'u64')):
+                self.items.pop(0)
+                return ready(some(ok(it[2])))
+            timers = M.env.setdefault('timers', [])
+            if not any(getattr(t, 'deadline', None) is it[1] for t in timers): timers.append(SleepFuture(it[1]))
+            return pending()
         self.items.pop(0)
         if it[0] == 'line': return ready(some(ok(it[1])))
         if it[0] == 'toolong': return ready(some(err(Adt('LinesCodecError', 0, []))))
